@@ -105,14 +105,12 @@ class Constraint(object):
 
         """
 
-        # If the attribute value is not None, then simply return it.
-        # Otherwise, compute it and return it.
-        if self._value is None:
-
-            try:
-                self._value = self.expression.eval()
-            except ValueError:
-                raise ValueError("The PEP must be solved to evaluate Constraints!")
+        # Compute the value from the one of the underlying expression
+        # (which changes at each solve: never reuse an old result).
+        try:
+            self._value = self.expression.eval()
+        except ValueError:
+            raise ValueError("The PEP must be solved to evaluate Constraints!")
 
         return self._value
 
